@@ -6,76 +6,6 @@ reports every selected package that is connected to the root inside `valid`; the
 -/
 namespace PathSpec
 
-/-! ### depth of an acyclic graph -/
-
-/-- consecutive nodes after `a` along dependency edges -/
-def Chain (g : Graph) : Node → List Node → Prop
-  | _, [] => True
-  | a, b :: l => edge g true a b ∧ Chain g b l
-
-theorem chain_reach {g : Graph} : ∀ (l : List Node) (a : Node), Chain g a l → ∀ x ∈ l, Relation.TransGen (edge g true) a x
-  | [], _, _, x, hx => by cases hx
-  | b :: l, a, h, x, hx => by
-    simp only [Chain] at h
-    rcases List.mem_cons.mp hx with rfl | hx'
-    · exact .single h.1
-    · exact transGen_head h.1 (chain_reach l b h.2 x hx')
-
-theorem chain_nodup {g : Graph} (hac : g.Acyclic) : ∀ (l : List Node) (a : Node), Chain g a l → l.Nodup
-  | [], _, _ => List.nodup_nil
-  | b :: l, a, h => by
-    simp only [Chain] at h
-    refine List.nodup_cons.mpr ⟨?_, chain_nodup hac l b h.2⟩
-    intro hb
-    exact hac b (chain_reach l b h.2 b hb)
-
-theorem chain_lt {g : Graph} (hwf : g.WF) : ∀ (l : List Node) (a : Node), Chain g a l → ∀ x ∈ l, x < g.size := by
-  intro l a h x hx
-  exact transGen_edge_lt hwf (chain_reach l a h x hx)
-
-/-- pigeonhole: a duplicate free list of numbers below `n` has at most `n` elements -/
-theorem nodup_length_le : ∀ (n : Nat) (l : List Nat), l.Nodup → (∀ x ∈ l, x < n) → l.length ≤ n := by
-  intro n
-  induction n with
-  | zero =>
-    intro l _ h
-    cases l with
-    | nil => simp
-    | cons x xs => exact absurd (h x (List.mem_cons.mpr (Or.inl rfl))) (by omega)
-  | succ n ih =>
-    intro l hnd h
-    have hsub : (l.filter (fun x => x != n)).Nodup := hnd.sublist List.filter_sublist
-    have hlt : ∀ x ∈ l.filter (fun x => x != n), x < n := by
-      intro x hx
-      have := List.mem_filter.mp hx
-      have h1 := h x this.1
-      have h2 : x ≠ n := by simpa using this.2
-      omega
-    have h1 := ih _ hsub hlt
-    -- at most one element is filtered out
-    have h2 : l.length ≤ (l.filter (fun x => x != n)).length + 1 := by
-      clear h1 hsub hlt h ih
-      induction l with
-      | nil => simp
-      | cons y ys ihy =>
-        have hnd' := List.nodup_cons.mp hnd
-        by_cases hy : y = n
-        · subst hy
-          have : ys.filter (fun x => x != y) = ys := by
-            apply List.filter_eq_self.mpr
-            intro x hx
-            have : x ≠ y := by intro h; subst h; exact hnd'.1 hx
-            simpa using this
-          simp [List.filter_cons, this]
-        · have := ihy hnd'.2
-          simp only [List.filter_cons, bne_iff_ne, ne_eq, hy, not_false_eq_true, if_true, List.length_cons]
-          omega
-    omega
-
-theorem chain_length_le {g : Graph} (hwf : g.WF) (hac : g.Acyclic) (l : List Node) (a : Node)
-    (h : Chain g a l) : l.length ≤ g.size :=
-  nodup_length_le g.size l (chain_nodup hac l a h) (chain_lt hwf l a h)
-
 /-- a real path yields a chain of the same length -/
 theorem pathWithin_chain {g : Graph} {valid : List Node} :
     ∀ (s : List Str) (a b : Node), PathWithin g valid a s b → ∃ l, Chain g a l ∧ l.length = s.length
@@ -197,17 +127,6 @@ theorem walkPost_trans {g : Graph} {a b c : RState} (h1 : WalkPost g a b) (h2 : 
     rcases h1.kept x hx with h | ⟨s, hs⟩
     · exact h2.kept x h
     · exact Or.inr ⟨s, h2.out_sub _ hs⟩
-
-/-- all chains of dependency edges below `node` are shorter than `fuel` -/
-def Shallow (g : Graph) (node : Node) (fuel : Nat) : Prop :=
-  ∀ l, Chain g node l → l.length < fuel
-
-theorem shallow_child {g : Graph} {node : Node} {fuel : Nat} (h : Shallow g node (fuel + 1))
-    {e : Edge} (he : e ∈ g.children node) : Shallow g e.node fuel := by
-  intro l hl
-  have := h (e.node :: l) ⟨⟨e, he, rfl, Or.inl rfl⟩, hl⟩
-  simp at this
-  omega
 
 theorem findResultNodes_first (g : Graph) :
     ∀ (fuel : Nat) (node : Node) (stack : List Str) (st : RState), Shallow g node fuel →
